@@ -74,7 +74,7 @@ def as_tuple(a):
 def evaluate(case, out):
     cands, winner = case["cands"], case["winner"]
     real = [b for b in case["ballots"] if b is not None]
-    out.cls(f"n={len(cands)}", case["asn"], "hint" if case["order_hint"] else "no-hint")
+    out.cls(f"n={len(cands)}", case["asn"], ("hint" if case["order_hint"][-1] == case["winner"] else "hint-ends-elsewhere") if case["order_hint"] else "no-hint")
     try:
         res, f = run_raire(case, earlier_search=(len(case["ballots"]) % 2 == 0), agap=case.get("agap", 0))
         if case.get("agap"):
